@@ -444,6 +444,32 @@ Proof.
       destruct (IH s2 n W) as [k H]. exists (S (S k)). simpl. exact H.
 Qed.
 
+Definition call_event (t nm : nat) (mf bf cur : option nat) : event :=
+  match mf with
+  | Some o => EvCallM o nm bf
+  | None => match bf with Some f => EvCallB f nm cur | None => EvRet t false end
+  end.
+
+Lemma call_spec c w t nm mf bf cur todo n s :
+  let s' := call c w t nm mf bf cur todo n s in
+  popped s' = popped s /\ pend s' = pend s /\
+  (exists p', thr s' = upd (thr s) t p' /\ (p' = PScan todo n \/ p' = PDone false)) /\
+  (forall e, In e (log s') ->
+     In e (log s) \/ e = call_event t nm mf bf cur \/ (exists b, e = EvWarn b nm) \/ e = EvRet t false).
+Proof.
+  unfold call, abort, call_event.
+  destruct mf as [o'|]; [|destruct bf as [f|]].
+  - destruct (fbeh _); [|destruct (c_guarded c)|]; simpl; rel_rw; irs_rw; simpl;
+      (split; [reflexivity|split; [reflexivity|split;
+        [eexists; split; [reflexivity|auto]
+        |intros e H; repeat (destruct H as [H|H]; [subst e; eauto 6|]); auto]]]).
+  - destruct (fbeh _); [|destruct (c_guarded c)|]; simpl; rel_rw; irs_rw; simpl;
+      (split; [reflexivity|split; [reflexivity|split;
+        [eexists; split; [reflexivity|auto]
+        |intros e H; repeat (destruct H as [H|H]; [subst e; eauto 6|]); auto]]]).
+  - simpl. split; [reflexivity|split; [reflexivity|split; [eexists; split; [reflexivity|auto]|auto]]].
+Qed.
+
 (* ------------------------------------------------------------------ module-provided beats built-in *)
 Definition settled (w : world) (s : st) (o : nat) : Prop := glue_of w o = None \/ In o (popped s).
 
@@ -500,26 +526,21 @@ Proof.
               inversion H; subst. clear H.
               (* mf = None while the object under nm is o *)
               match goal with H1 : mf = None |- _ => rename H1 into MF end.
-              match goal with H1 : m_get (mods s) nm = Some o |- _ => rename H1 into CU end.
-              unfold mf in MF. rewrite CU in MF.
+              match goal with H1 : m_get (mods s) _ = Some o |- _ => rename H1 into CU end.
+              rewrite MF. unfold mf in MF. rewrite CU in MF.
               destruct (glue_of w o); [|left; reflexivity].
               destruct (mem_nat o (popped s)) eqn:MM; [|discriminate].
-              right. rewrite <- MF. apply mem_nat_In. exact MM.
+              right. apply mem_nat_In. exact MM.
            ++ destruct (B t' nm' f' todo' k' H) as [X|X]; [left; exact X|right; apply MONO; exact X].
     + (* PCall *)
-      unfold call, abort.
-      destruct mf as [o'|].
-      * destruct (fbeh _); [|destruct (c_guarded c)|]; unfold PM, settled in *; simpl; rel_rw; irs_rw; simpl; split;
-          try (intros f' n' H; repeat (destruct H as [H|H]; [discriminate|]); eapply A; eauto);
-          try (intros t' nm' f' todo' k' H; destruct (t' =? t); [discriminate|eapply B; eauto]).
-      * destruct bf as [f|].
-        -- assert (ST : forall f' n', EvCallB f nm cur = EvCallB f' n' (Some o) -> settled w s o).
-           { intros f' n' H. inversion H; subst. eapply B. exact E. }
-           destruct (fbeh _); [|destruct (c_guarded c)|]; unfold PM, settled in *; simpl; rel_rw; irs_rw; simpl; split;
-             try (intros f' n' H; repeat (destruct H as [H|H]; [try discriminate; try (eapply ST; symmetry; exact H)|]); eapply A; eauto);
-             try (intros t' nm' f' todo' k' H; destruct (t' =? t); [discriminate|eapply B; eauto]).
-        -- unfold PM, settled in *; simpl; split; eauto.
-           intros t' nm' f' todo' k' H; destruct (t' =? t); [discriminate|eapply B; eauto].
+      destruct (call_spec c w t nm mf bf cur todo n s) as (P & _ & (p' & T & PP) & L).
+      unfold PM, settled in *. rewrite P. split.
+      * intros f' n' H. apply L in H. destruct H as [H|[H|[[b H]|H]]]; try discriminate.
+        -- eapply A; exact H.
+        -- unfold call_event in H. destruct mf; [discriminate|]. destruct bf; [|discriminate].
+           inversion H; subst. eapply B. exact E.
+      * intros t' nm' f' todo' k' H. rewrite T in H. unfold upd in H.
+        destruct (t' =? t); [destruct PP; subst p'; discriminate|eapply B; exact H].
 Qed.
 
 Theorem prefers_module (w : world) (scanned : bool) (ls : list label) (f n o : nat) :
